@@ -79,6 +79,7 @@ func (g *sgen) baseWorld() J {
 			remote("/col/r2"):        J{"type": "OrderedCollection", "id": remote("/col/r2"), "orderedItems": []interface{}{bob, remote("/col/r")}},
 			remote("/garbage"):       J{"__raw": "<html>not json</html>"},
 			remote("/unknown"):       J{"type": "Gizmo", "id": remote("/unknown")},
+			remote("/notype"):        J{"error": "Record not found"},
 			remote("/activities/f2"): J{"type": "Follow", "id": local("/activities/f1"), "actor": alice, "object": bob},
 			remote("/activities/l1"): J{"type": "Like", "id": remote("/activities/l1"), "actor": bob, "object": local("/notes/1")},
 		},
@@ -96,6 +97,9 @@ func (g *sgen) baseWorld() J {
 		st := jmap(w["store"])
 		jmap(st[local("/col/2")])["type"] = "CollectionPage"
 		jmap(st[local("/ocol/1")])["type"] = "OrderedCollectionPage"
+		n2 := jmap(st[local("/notes/2")])
+		jmap(n2["likes"])["type"] = "OrderedCollectionPage"
+		jmap(n2["shares"])["type"] = "CollectionPage"
 	}
 	return w
 }
@@ -180,6 +184,10 @@ func (g *sgen) inboxActivity(ty string, world J) J {
 	case "Create":
 		for i := 0; i < no; i++ {
 			oid := remote(fmt.Sprintf("/notes/%d", 8+g.r.intn(2)))
+			if g.r.chance(15) {
+				// an IRI whose document is of an unknown type, has no type at all, is no JSON, or cannot be fetched
+				oid = g.r.pick([]string{remote("/unknown"), remote("/notype"), remote("/garbage"), remote("/gone")})
+			}
 			if g.r.chance(60) {
 				objs = append(objs, J{"type": "Note", "id": remote(fmt.Sprintf("/notes/c%d", i)), "content": "hello"})
 			} else {
@@ -210,7 +218,11 @@ func (g *sgen) inboxActivity(ty string, world J) J {
 			case 0:
 				objs = append(objs, J{"type": "Follow", "id": local("/activities/f1"), "actor": alice, "object": bob})
 			case 1:
-				objs = append(objs, remote("/activities/f2"))
+				if g.r.chance(25) {
+					objs = append(objs, g.r.pick([]string{remote("/unknown"), remote("/notype"), remote("/garbage")}))
+				} else {
+					objs = append(objs, remote("/activities/f2"))
+				}
 			case 2:
 				objs = append(objs, J{"type": "Follow", "id": remote("/activities/fx"), "actor": carol, "object": bob})
 			default:
@@ -394,8 +406,14 @@ var apHeaders = []string{
 	"application/ld+json;profile=https://www.w3.org/ns/activitystreams",
 	"application/ld+json ; profile=\"https://www.w3.org/ns/activitystreams\"",
 	"text/html, application/activity+json;q=0.9",
+	// parameters the matching does not look at, well-formed or not
+	"application/activity+json;q=",
+	"application/activity+json; q= , text/html",
+	"application/ld+json; profile=\"https://www.w3.org/ns/activitystreams\";q=",
+	"application/activity+json;q=0",
+	"application/activity+json;;",
 }
-var nonApHeaders = []string{"", "application/json", "application/ld+json", "text/html", "application/ld+json; profile=\"https://example.org/ns\"", "application/activity+xml"}
+var nonApHeaders = []string{"", "APPLICATION/ACTIVITY+JSON", "application/json;q=", "application/json", "application/ld+json", "text/html", "application/ld+json; profile=\"https://example.org/ns\"", "application/activity+xml"}
 
 func (g *sgen) header(ap bool) string {
 	if ap {
